@@ -137,15 +137,20 @@ Qed.
 Print Assumptions C07_root_independent_of_hashing.
 
 (** the hypotheses are satisfiable and the functions compute: three keys with a shared prefix
-    inserted in two different orders (one history also inserts and deletes a fourth key) *)
+    inserted in two different orders (one history also inserts and deletes a fourth key, the
+    other calls Hash() in between); with the identity as "hash" the root is the whole encoding,
+    so equal roots mean equal structure *)
 Example C07_example_two_orders :
-  let a := MUpdate [1; 35]%N [170]%N in
-  let b := MUpdate [1; 36]%N [187; 187]%N in
-  let c := MUpdate [1]%N [204]%N in
-  let x := MUpdate [1; 35; 69]%N [221]%N in
-  exists n1 n2,
-    run [] Empty [a; b; c] = Ok n1 /\
-    run [] Empty [x; c; b; MDelete [1; 35; 69]%N; a] = Ok n2 /\
-    erase n1 = erase n2 /\
-    trie_get [] n2 [1; 36]%N = Ok ([187; 187]%N, n2).
-Proof. vm_compute. eexists _, _. repeat split. Qed.
+  let a := HUpdate [1; 35]%N [170]%N in
+  let b := HUpdate [1; 36]%N [187; 187]%N in
+  let c := HUpdate [1]%N [204]%N in
+  let x := HUpdate [1; 35; 69]%N [221]%N in
+  let id := fun z : bytes => z in
+  match hrun id [] Empty [a; HHashOp; b; c], hrun id [] Empty [x; c; b; HDelete [1; 35; 69]%N; a] with
+  | Ok n1, Ok n2 =>
+    beq (fst (trie_hash id n1)) (fst (trie_hash id n2)) &&
+    match trie_get [] n2 [1; 36]%N with Ok (v, _) => beq v [187; 187]%N | _ => false end &&
+    match trie_get [] n1 [1; 35; 69]%N with Ok (v, _) => beq v [] | _ => false end
+  | _, _ => false
+  end = true.
+Proof. vm_compute. reflexivity. Qed.
